@@ -37,6 +37,11 @@ def wrap_site(ctx, rule, f: FuncInfo, target: ast.AST, phase: str, path_ok, cls_
         rep.violate(rule, f, t, f"no `except Exception` handler around the '{phase}' site")
         return
     h = exc_h[0]
+    # every Exception is wrapped: a narrower handler in front of the wrapper lets that class of
+    # failures through as itself (ordinary exception classes only - cancellation is BaseException)
+    narrower = [x for x in inner[: inner.index(h)] if x.type is not None and not (handler_names(x.type) & {"BaseException"}) and "Cancel" not in ast.unparse(x.type)]
+    for x in narrower:
+        rep.violate(rule, f, x, f"`except {ast.unparse(x.type)}` in front of the '{phase}' wrapper: a component failing with that exception is not reported as ComponentStartError('{phase}', path, class) with the original as its cause")
     raises = [r for r in ast.walk(h) if isinstance(r, ast.Raise) and r.exc is not None]
     if not raises or not isinstance(raises[0].exc, ast.Call) or call_name(raises[0].exc) != "ComponentStartError":
         rep.violate(rule, f, h, f"the '{phase}' handler does not raise ComponentStartError")
@@ -323,4 +328,7 @@ def run(ctx) -> None:
     # a service task started by a component is owned by the surrounding context only if
     # nothing can interrupt start_service_task between the start and the finalizer's registration
     include_rules(ctx, "c08", "C07.R6", only=("C08.R3",))
+    # "exactly what was registered before the failure": a registration that fails leaves nothing
+    # behind (C03.R1)
+    include_rules(ctx, "c03", "C07.R6", only=("C03.R1",))
     rep.assume("anyio: when a child task raises, the task group cancels the remaining children and re-raises at its exit; cancellation is not an Exception subclass")
